@@ -6,6 +6,7 @@ import (
 )
 
 func verifCodecRoundTrip(v6 bool) {
+	verif.Option("panic_is_violation", 1) // a panic must never end a path silently
 	p := verifSymPeer("p", v6)
 	s := serializePeer(p)
 	id, complete, err := deserializePeer(s)
